@@ -59,7 +59,7 @@ void Exec::op_esolver(Client &c) {
 	bool lpfmt = info.fmt == "LP";
 	std::string sol = "/sim/out" + std::to_string(step) + ".sol" + COMP_EXT_SOL[modn(op->i("solcomp", 0), 3)];
 	if (op->i("longsol", 0)) sol = "/sim/" + std::string((size_t)(1010 + modn(op->i("longsol"), 200)), 'o') + std::to_string(step) + ".sol";   // a long, perfectly legal output name
-	if (op->i("hibyte", 0) && !missing && world.files.count(path)) { std::string p2 = path; size_t sl = p2.rfind('/'); p2.insert(sl + 1, "d\xc3\xa9j\xc3\xa0_"); world.files[p2] = world.files[path]; files[p2] = info; path = p2; }   // a file name with bytes above 127
+	if (op->i("hibyte", 0) && !missing && world.files.count(path)) { std::string p2 = path; size_t sl = p2.rfind('/'); p2.insert(sl + 1, modn(op->i("hibyte"), 2) ? "d\xc3\xa9j\xc3\xa0_" : "my problems 2026 "); world.files[p2] = world.files[path]; files[p2] = info; path = p2; }   // a file name with bytes above 127
 	std::vector<std::string> args = {"esolver"};
 	// -L forces LP; without it the format is chosen by extension
 	if (lpfmt && op->i("forceL", 0)) args.push_back("-L");
